@@ -210,3 +210,20 @@ def W(f: Func, depth: int = 2):
     for _g, _call, body, _d in flat_bodies(_REPO, f, depth, only_module_local=True):
         for s in body:
             yield from ast.walk(s)
+
+
+def expr_nodes(repo, owner: Func, e: ast.AST, depth: int = 2):
+    """Nodes of an expression/statement plus, for every call in it that resolves to a repository function, the nodes
+    of that function's (substituted) body - recursively up to depth."""
+    yield from ast.walk(e)
+    if depth <= 0:
+        return
+    for call in [n for n in ast.walk(e) if isinstance(n, ast.Call)]:
+        g = resolve_call(repo, owner, call)
+        if g is None or not g.module.name.startswith("src"):
+            continue
+        mapping = _bind(g, call)
+        sub = _Subst(mapping)
+        for s in g.node.body:
+            body = ast.fix_missing_locations(sub.visit(copy.deepcopy(s)))
+            yield from expr_nodes(repo, g, body, depth - 1)
